@@ -271,7 +271,7 @@ class SqliteStorage(AbstractStorage):
         # First, upsert events with id's set
         events_upsert = [e for e in events if e.id is not None]
         for e in events_upsert:
-            self.replace(bucket_id, e.id, e)
+            self._replace(bucket_id, e.id, e)
 
         # Then insert events without id's set
         events_insert = [e for e in events if e.id is None]
@@ -285,7 +285,8 @@ class SqliteStorage(AbstractStorage):
             + "VALUES ((SELECT rowid FROM buckets WHERE id = ?), ?, ?, ?)"
         )
         self.conn.executemany(query, event_rows)
-        self.conditional_commit(len(event_rows))
+        # one commit decision for the whole call, after all of its statements
+        self.conditional_commit(len(events_upsert) + len(event_rows))
 
     def replace_last(self, bucket_id, event):
         starttime, endtime = _event_to_us(event)
@@ -311,6 +312,11 @@ class SqliteStorage(AbstractStorage):
         return deleted
 
     def replace(self, bucket_id, event_id, event) -> bool:
+        self._replace(bucket_id, event_id, event)
+        self.conditional_commit(1)
+        return True
+
+    def _replace(self, bucket_id, event_id, event) -> None:
         starttime, endtime = _event_to_us(event)
         datastr = json.dumps(event.data)
         query = """UPDATE events
@@ -319,8 +325,6 @@ class SqliteStorage(AbstractStorage):
                          datastr = ?
                      WHERE id = ? AND bucketrow = (SELECT rowid FROM buckets WHERE id = ?)"""
         self.conn.execute(query, [starttime, endtime, datastr, event_id, bucket_id])
-        self.conditional_commit(1)
-        return True
 
     def get_event(
         self,
